@@ -308,7 +308,7 @@ def build_modelrun():
 
 def run_model(lines, timeout=900):
     """answers of the extracted model, one per request line"""
-    return _run_batch([os.path.join(ML, "modelrun")], lines, timeout, env=None)
+    return _run_batch([os.path.join(ML, "modelrun")], lines, timeout, env=None, big_stack=True)
 
 
 def run_impl(lines, flags=7, timeout=900, extra_args=()):
@@ -316,7 +316,17 @@ def run_impl(lines, flags=7, timeout=900, extra_args=()):
                       lines, timeout, env=impl_env())
 
 
-def _run_batch(cmd, lines, timeout, env):
+def _big_stack():
+    # the extracted model is not tail-recursive everywhere (a 1500-item list is a 1500-deep OCaml recursion with large frames)
+    import resource
+    try:
+        hard = resource.getrlimit(resource.RLIMIT_STACK)[1]
+        resource.setrlimit(resource.RLIMIT_STACK, (hard, hard))
+    except (ValueError, OSError):
+        pass
+
+
+def _run_batch(cmd, lines, timeout, env, big_stack=False):
     if not lines:
         return []
     nshards = min(NCPU, max(1, len(lines) // 400))
@@ -331,7 +341,7 @@ def _run_batch(cmd, lines, timeout, env):
                 f.write("\n".join(sl) + "\n")
             fi = open(inp, "rb")
             fo = open(outp, "wb")
-            procs.append((subprocess.Popen(cmd, stdin=fi, stdout=fo, stderr=subprocess.PIPE, env=env), fi, fo, outp, sl))
+            procs.append((subprocess.Popen(cmd, stdin=fi, stdout=fo, stderr=subprocess.PIPE, env=env, preexec_fn=_big_stack if big_stack else None), fi, fo, outp, sl))
         outs = [None] * len(lines)
         deadline = time.time() + timeout
         for i, (p, fi, fo, outp, sl) in enumerate(procs):
